@@ -1,4 +1,4 @@
 SPECIFICATION Spec
-CONSTANT Big = FALSE
+CONSTANT Big = TRUE
 INVARIANTS Good Emit
 CHECK_DEADLOCK FALSE
